@@ -25,6 +25,7 @@ var (
 	flagReplay   = flag.String("replay", "", "re-run the rule of a replay file and tell whether the construct is still reported")
 	flagExport   = flag.Bool("export-props", false, "print the property table as JSON (used by gen_manifest.py)")
 	flagGenWire  = flag.Bool("gen-wire", false, "print a candidate wire spec (format6.json) for the tree at -repo")
+	flagAll      = flag.Bool("all", false, "tooling: load once, run every rule once, print a verdict line per property (no evidence written)")
 	flagMutants  = flag.Bool("mutants", false, "run the mutant self-tests for -property (or all) and exit")
 )
 
@@ -109,6 +110,9 @@ func run() (code int) {
 	}
 	if *flagMutants {
 		return runMutantsCLI()
+	}
+	if *flagAll {
+		return checkAll()
 	}
 	if *flagProperty == "" {
 		fmt.Fprintln(os.Stderr, "need -property")
@@ -325,3 +329,63 @@ func replay(path string) int {
 }
 
 var _ = ssa.NaiveForm
+
+// checkAll is a tooling mode (seed / refactoring sweeps): one load, every rule once, one verdict line per property.
+func checkAll() int {
+	verif := *flagVerif
+	known := loadKnown(filepath.Join(verif, "known_findings.txt"))
+	p := Load(*flagRepo, false)
+	if bad := checkImports(p); len(bad) > 0 {
+		undecided("common assumption broken: %s", strings.Join(bad, "; "))
+	}
+	fix := Load(filepath.Join(verif, "checker", "fixtures", "kz"), false)
+	cache := map[string]*RuleResult{}
+	worst := 0
+	for _, id := range sortedKeys(properties) {
+		prop := properties[id]
+		nviol, nundec := 0, 0
+		var lines []string
+		for _, rn := range prop.Rules {
+			res := cache[rn]
+			if res == nil {
+				rule := rules[rn]
+				res = runRule(p, rule)
+				if rule.Fixture {
+					fres := runRuleF(fix, rule, false)
+					if fres.Undecided != "" || len(fres.Findings) == 0 {
+						res.Undecided = "positive control failed on the fixture"
+					}
+				}
+				cache[rn] = res
+			}
+			if res.Undecided != "" {
+				nundec++
+				lines = append(lines, fmt.Sprintf("   UNDECIDED %s: %s", res.Rule, res.Undecided))
+			}
+			for _, f := range res.Findings {
+				if known.match(id, f) != nil {
+					continue
+				}
+				nviol++
+				lines = append(lines, fmt.Sprintf("  -> %s %s at %s: %s", f.Rule, f.Construct, f.Pos, f.Msg))
+			}
+		}
+		code := 0
+		if nviol > 0 {
+			code = 1
+		} else if nundec > 0 {
+			code = 2
+		}
+		if code != 0 {
+			fmt.Printf("%s exit=%d\n", id, code)
+			for _, l := range lines {
+				fmt.Println(l)
+			}
+		}
+		if code > worst {
+			worst = code
+		}
+	}
+	fmt.Printf("all-properties worst=%d\n", worst)
+	return worst
+}
